@@ -127,6 +127,13 @@ func TestVerifC07(t *testing.T) {
 			c.Steps = []advStep{{At: t0 - 2*time.Second, Kind: "rs", Src: vSrc(0, 1)},
 				{At: t0, Kind: "fwderr", On: true, Err: shape}, {At: t0 + 50*vMs, Kind: "rs", Src: vSrc(0, 2)},
 				{At: t0 + 1500*vMs, Kind: "fwderr", On: false}, {At: t0 + 2500*vMs, Kind: "rs", Src: vSrc(1, 3)}}
+			if i%20 == 16 {
+				// what arrives during the fault is a neighbouring router's RA: checking it
+				// needs CoreRAD's own RA, which cannot be built just then; the message was
+				// received and validated all the same
+				c.Steps[2] = advStep{At: t0 + 50*vMs, Kind: "msg", Msg: "ra", Src: "fe80::c0:1", Hop: 255}
+				r.Count("sysctl_fault_histories_with_peer_ra", 1)
+			}
 			c.StopAt = t0 + 5*time.Second
 			r.Count("sysctl_fault_histories", 1)
 		}
@@ -517,6 +524,28 @@ func TestVerifC09(t *testing.T) {
 				c.Steps = append(c.Steps, advStep{At: at + 100*vMs, Kind: "rs", Src: "fe80::900d:2"})
 				c.Steps = append(c.Steps, advStep{At: at + 2*time.Second, Kind: "rs", Src: "fe80::900d:3"})
 				c.StopAt = at + 4*time.Second
+				run(c)
+			}
+		}
+	}
+	// An invalid message FIRST, then up to four receive time-outs (one fewer than
+	// the budget), then a solicitation: the dropped message costs nothing, the
+	// solicitation is answered and the task lives on.
+	for k := 1; k <= 4; k++ {
+		for ti, typ := range []string{"rs", "ra", "ns"} {
+			for _, unicastOnly := range []bool{false, true} {
+				c := &advCase{ID: fmt.Sprintf("invfirst/%d/%s/%v", k, typ, unicastOnly), Min: 20 * time.Second, Max: 30 * time.Second, Fwd: true, Terminate: true, UnicastOnly: unicastOnly, Seed: time.Duration(k*7 + ti)}
+				at := 6 * time.Second
+				c.Steps = append(c.Steps, advStep{At: at - time.Second, Kind: "rs", Src: "fe80::900d:1"})
+				c.Steps = append(c.Steps, advStep{At: at, Kind: "msg", Msg: typ, Src: "fe80::bad:1", Hop: []int{64, 1, 254}[ti]})
+				for j := 0; j < k; j++ {
+					c.Steps = append(c.Steps, advStep{At: at, Kind: "readerr", Err: "timeout"})
+				}
+				c.Steps = append(c.Steps, advStep{At: at + 2*time.Second, Kind: "rs", Src: "fe80::900d:2"})
+				c.StopAt = at + 4*time.Second
+				if r.Mine(c.ID) {
+					r.Count("invalid_first_then_timeouts_histories", 1)
+				}
 				run(c)
 			}
 		}
